@@ -38,7 +38,9 @@ ASSUMPTIONS = [
 TEXTS = ["a", "b1", "1", "a.b", "a/b", "a b", "[", "]", "(", ")", "'", '"',
          "\\", "^", "$", "%", "a[0]", "x(y)", "it's", 'say "hi"', "a\\b",
          "50%", "^a$", ".", "/", " ", "a.b/c d", "/x", "/a.b", "./x",
-         '"hi"', "'q'", '""', "'tis so", 'a"', "x'y\"z"]
+         '"hi"', "'q'", '""', "'tis so", 'a"', "x'y\"z",
+         # a backslash right before a character that is itself escaped
+         "a\\ b", "a\\.b", "a\\/b", "b\\$", "\\'", "\\\\", "x\\"]
 SIMPLE = ["a", "b1", "1"]
 SEGS1 = []
 PATHS = []
@@ -60,7 +62,7 @@ def seg_vocab(tier):
     terms = TEXTS if tier != "quick" else [
         "a", "1", "a.b", "a b", "]", "[", "'", '"', "\\", "a/b", "(", ")",
         "^", "$", "%", '"hi"', "'q'", '""', "'tis so", 'say "hi"', 'a"',
-        "x'y\"z", "a\\b"]
+        "x'y\"z", "a\\b", "b\\ c", "b\\$", "\\'"]
     for op in paths.OPS:
         for inv in (False, True):
             v.append(("search", ".", op, "a", inv))
@@ -84,7 +86,8 @@ def coll_vocab():
     inner = [(("key", "a"),), (("key", "a"), ("key", "b")),
              (("key", "a"), ("idx", 0)), (("all",),),
              (("key", "a"), ("search", "k", "=", "1", False)),
-             (("key", "a b"),), (("trav",), ("key", "a"))]
+             (("key", "a b"),), (("trav",), ("key", "a")),
+             (("anchor", "A"),), (("anchor", "A"), ("key", "a"))]
     out = []
     for i in inner:
         out.append((("coll", "", i),))
@@ -215,6 +218,8 @@ def roundtrip(st, segs):
     for sep in (".", "/"):
         styles = ("bs", "q", "qq1", "qq2") if any(
             x[0] == "search" for x in segs) else ("bs", "q")
+        if any(x[0] == "coll" for x in segs):
+            styles += ("rel",)
         for style in styles:
             text = paths.render(segs, sep, style)
             if sep == "." and text.startswith("/"):
